@@ -1771,6 +1771,100 @@ class Executor:
             finally:
                 self.write_log = saved
 
+    RESULT = "core::result::Result"
+
+    def pick_variant(self, st, v, var):
+        """the value v (of an enum type) on the assumption that it is variant `var`: an Agg, or None if infeasible"""
+        if isinstance(v, Agg):
+            return v if v.variant == var else None
+        if isinstance(v, SymV):
+            return self.expand_sym(v, var)
+        if isinstance(v, ITE):
+            cv = st.facts.simplify(v.c).const_value()
+            if cv == 1:
+                return self.pick_variant(st, v.a, var)
+            if cv == 0:
+                return self.pick_variant(st, v.b, var)
+            return v
+        return v
+
+    def split_result(self, st, v, depth=0):
+        """a Result handed back as the last fallible call produced it (a symbol, or an if-then-else of such) is split
+        into separate Ok / Err outcomes, so that rules see the same outcomes as with `r?; Ok(())`"""
+        if depth > 6 or not self._ite_is_result(v) or isinstance(v, Agg):
+            return [(st, v)]
+        out = []
+        if isinstance(v, ITE):
+            for val, br in ((1, v.a), (0, v.b)):
+                s2 = st.fork()
+                if s2.facts.assume(v.c, val):
+                    out.extend(self.split_result(s2, br, depth + 1))
+            return out or [(st, v)]
+        for var in (0, 1):
+            try:
+                c = self.variant_cond(v, var)
+            except Undecided:
+                return [(st, v)]
+            s2 = st.fork()
+            if not s2.facts.assume(c, 1):
+                continue
+            pv = self.pick_variant(s2, v, var)
+            if pv is not None:
+                out.append((s2, pv))
+        return out or [(st, v)]
+
+    def split_payload_ites(self, st, v, budget=8):
+        """an if-then-else nested in the returned value (e.g. Err(if c {A} else {B}) after a helper's two error
+        returns were merged) is split into separate outcomes, as if the helper had been written inline"""
+        def find(x, depth):
+            if depth > 3:
+                return None
+            if isinstance(x, ITE):
+                return ()
+            if isinstance(x, Agg) and x.kind in ("adt", "tuple"):
+                for i, f in enumerate(x.fields):
+                    r = find(f, depth + 1)
+                    if r is not None:
+                        return (i,) + r
+            return None
+
+        def put(x, path, new):
+            if not path:
+                return new
+            fs = list(x.fields)
+            fs[path[0]] = put(fs[path[0]], path[1:], new)
+            return Agg(x.kind, x.name, x.variant, fs, x.ty, x.extra)
+
+        def get(x, path):
+            for i in path:
+                x = x.fields[i]
+            return x
+        work = [(st, v)]
+        out = []
+        while work:
+            s0, v0 = work.pop()
+            pth = find(v0, 0) if isinstance(v0, Agg) else None
+            if pth is None or len(out) + len(work) >= budget:
+                out.append((s0, v0))
+                continue
+            it = get(v0, pth)
+            for val, br in ((1, it.a), (0, it.b)):
+                s1 = s0.fork()
+                if s1.facts.assume(it.c, val):
+                    work.append((s1, put(v0, pth, br)))
+        return out
+
+    def _ite_is_result(self, v, depth=0):
+        if depth > 8:
+            return False
+        if isinstance(v, ITE):
+            return self._ite_is_result(v.a, depth + 1) and self._ite_is_result(v.b, depth + 1)
+        if isinstance(v, Agg):
+            return v.kind == "adt" and v.name == self.RESULT
+        if isinstance(v, SymV):
+            return isinstance(v.ty, dict) and v.ty.get("def") == self.RESULT
+        return False
+
     def closure_env_pure(self, v):
         """does the closure body leave its captured environment unmodified?"""
         rec = self.F.bodies.get(v.name)
@@ -2282,7 +2376,9 @@ class Executor:
         res.frame = fr
         res.discharged = self.discharged
         for s, v in outs:
-            res.outcomes.append(Outcome("return", s, v, None))
+            for s2, v2 in self.split_result(s, v):
+                for s3, v3 in self.split_payload_ites(s2, v2):
+                    res.outcomes.append(Outcome("return", s3, v3, None))
         res.outcomes.extend(self.terminated)
         res.loops = self.loops
         res.notes = list(self.notes)
